@@ -196,6 +196,7 @@ def case(chk, i):
         em, asr = emitted(inv)
         files["allowlisted.rs"] = open(o).read()
         problems = []
+        case_sig = None
         E = set()
         for it in items:
             if any(n in em for n in rust_names(it)):
@@ -227,6 +228,19 @@ def case(chk, i):
             lack = C - E
             if lack:
                 problems.append("items the allowlisted ones need are missing: %s" % sorted(lack))
+                if vtables and not methods_on:
+                    # recorded: with methods switched off the traversal skips method signatures, yet --vtable-generation writes them
+                    def cl_plain(roots):
+                        seen, stack = set(), list(roots)
+                        while stack:
+                            x = stack.pop()
+                            if x in seen or x in B:
+                                continue
+                            seen.add(x)
+                            stack.extend(by[x].needs)
+                        return seen
+                    if lack <= (C - cl_plain(R)):
+                        case_sig = "c09.vtable-signature-types-when-methods-are-off"
         else:
             if E != R:
                 problems.append("--no-recursive-allowlist: emitted %s, selected %s" % (sorted(E), sorted(R)))
@@ -260,7 +274,7 @@ def case(chk, i):
             if rcr != 0:
                 problems.append("allowlisted bindings do not compile on their own: " + ser[:500])
         if problems:
-            out.append(Verdict(VIOLATED, cname, "\n".join(problems)[:2500], files=files, obs=obs))
+            out.append(Verdict(VIOLATED, cname, "\n".join(problems)[:2500], files=files, obs=obs, signature=case_sig if len(problems) <= 2 else None))
         else:
             out.append(Verdict(HELD, cname, obs=obs, nontrivial=len(C) < len(items) and len(E) >= 1, key=cname,
                                sample={"flags": flags, "selected": sorted(R), "closure": sorted(C)} if (i % 17 == 0 and s == 0) else None))
